@@ -64,6 +64,9 @@ type knownFinding struct {
 	Text     string
 }
 
+// currentCtx is the context of the running check (for panic reporting from workers).
+var currentCtx *Ctx
+
 func newCtx(id, tier string) *Ctx {
 	c := &Ctx{ID: id, Tier: tier, Seed: envInt("VERIF_SEED", 0), Level: "model_checking"}
 	c.Salt = uint32(c.Seed)*2654435761 + 12345
@@ -87,6 +90,7 @@ func newCtx(id, tier string) *Ctx {
 		}
 	}
 	c.deadline = startTime.Add(time.Duration(capS) * time.Second)
+	currentCtx = c
 	return c
 }
 
@@ -289,6 +293,15 @@ func parallel(n int64, chunk int64, nworkers int, f func(worker int, lo, hi int6
 		wg.Add(1)
 		go func(w int) {
 			defer wg.Done()
+			defer func() {
+				// A panic that escapes a worker comes from the code under check on an input the
+				// harness did not guard (the unchanged tree never panics here): report it, do not crash.
+				if r := recover(); r != nil && currentCtx != nil {
+					buf := make([]byte, 6000)
+					n := runtime.Stack(buf, false)
+					currentCtx.Report("panic-in-worker", 0, "", map[string]string{"panic": fmt.Sprint(r)}, []string{fmt.Sprintf("panic while exploring: %v", r), string(buf[:n])})
+				}
+			}()
 			for {
 				lo := atomic.AddInt64(&next, chunk) - chunk
 				if lo >= n {
